@@ -256,7 +256,8 @@ def r10b(ctx):
         raise Inconclusive("ListNode.edits: no isinstance dispatch")
     # the whole body is evaluated with `isinstance(<other>, ListNode)` known to hold, so nested-if and guard-clause forms
     # of the dispatch are treated alike
-    chain = [s_ for s_ in f.node.body if not (isinstance(s_, ast.Expr) and isinstance(s_.value, ast.Constant))]
+    from ..astx import subst_paths
+    chain = [s_ for s_ in subst_paths(f.node).body if not (isinstance(s_, ast.Expr) and isinstance(s_.value, ast.Constant))]
 
     def decide(env):
         def run(stmts):
